@@ -361,8 +361,34 @@ def run_cases(cases, props, opts=None, procs=None):
 # --------------------------------------------------------------------------- code -> spec (beyond the bounds)
 
 
-def random_case(rnd, faults):
+RANDOM_AGG = ["sum", "reduce", "min", "max", "list", "tuple", "sorted", "nlargest", "nsmallest"]
+
+
+def random_agg_case(rnd):
+    """An aggregation on an input longer than the exhaustive bounds (up to 12 items, three key classes)."""
+    tool = rnd.choice(RANDOM_AGG)
+    seq = lambda keys, hi=12: [rnd.choice(keys) for _ in range(rnd.randint(0, hi))]  # noqa: E731
+    b = lambda: rnd.random() < 0.5  # noqa: E731
+    par, data = {"z": 0}, [seq([1])]
+    if tool == "sum":
+        par = {"startv": rnd.choice(["zero", "obj"])}
+    elif tool == "reduce":
+        par = {"init": b(), "inone": False}
+    elif tool in ("min", "max"):
+        key = b()
+        par = {"key": key, "kf": rnd.choice(["key", "key2"]) if key else "key", "dflt": rnd.choice(["no", "fresh"])}
+        data = [seq([1, 2, 3] if key else [1, 2])]
+    elif tool == "sorted":
+        par, data = {"key": b(), "rev": b()}, [seq([1, 2, 3])]
+    elif tool in ("nlargest", "nsmallest"):
+        par, data = {"key": b(), "n": rnd.randint(0, 13)}, [seq([1, 2, 3])]
+    return {"cfg": {"tool": tool, "par": par, "data": data}, "fault": 0, "nnext": 1, "closes": False, "log": [{"ev": "end"}]}
+
+
+def random_case(rnd, faults, agg=False):
     """A configuration outside ConfigsOf: more/longer sources, larger parameters."""
+    if agg:
+        return random_agg_case(rnd)
     tool = rnd.choice(ITER_TOOLS + ["all", "any"])
     L_ = lambda hi=8: rnd.randint(0, hi)  # noqa: E731
     seq = lambda keys, hi=8: [rnd.choice(keys) for _ in range(L_(hi))]  # noqa: E731
@@ -424,9 +450,9 @@ def random_case(rnd, faults):
 
 
 def record_random(args):
-    seed, faults = args
+    seed, faults = args[0], args[1]
     rnd = random.Random(seed)
-    case = random_case(rnd, faults)
+    case = random_case(rnd, faults, agg=len(args) > 2 and args[2])
     L = tm.load_lib()
     o = tm.execute(case, L, susp=rnd.choice([0, 1]))
     log = tm.lazy_projection(o.log) + ([{"ev": "close"}] if o.ending == "close" else [])
@@ -460,8 +486,9 @@ def beyond_bounds(prop, tier, seed, v):
 
     n = {"quick": 1500, "thorough": 30000}[tier]
     faults = prop == "C06"
+    agg = prop == "C02"
     with mp.Pool(min(16, os.cpu_count() or 4)) as pool:
-        recs = pool.map(record_random, [(seed * 2654435761 % (2 ** 31) + i, faults) for i in range(n)], chunksize=64)
+        recs = pool.map(record_random, [(seed * 2654435761 % (2 ** 31) + i, faults, agg) for i in range(n)], chunksize=64)
     if prop == "C06":
         recs = [r for r in recs if r["fault_fired"]]
         for r in recs:
@@ -485,14 +512,18 @@ def beyond_bounds(prop, tier, seed, v):
                 v.violation(f"C04/{r['cfg']['tool']}/unreleased-{who}-after-{how}",
                             {"engine": "toolmachine", "mode": "random", "cfg": r["cfg"], "nnext": r["nnext"], "fault": r["plan"], "observed": r["states"]})
         return {"random_executions": len(recs)}
-    if prop == "C01":
+    if prop == "C02":
+        # results only (what C02 speaks of): how often an exhausted input is asked again is not part of it
+        traces = [{"cfg": r["cfg"], "log": [e for e in r["log"] if e["ev"] in ITEMS_EVENTS]} for r in recs]
+        proj = "items"
+    elif prop == "C01":
         recs = [r for r in recs if not r["closes"]]
         traces = [{"cfg": r["cfg"], "log": [e for e in r["log"] if e["ev"] in ITEMS_EVENTS]} for r in recs]
         proj = "items"
-    else:
+    elif prop != "C02":
         traces = [{"cfg": r["cfg"], "log": r["log"]} for r in recs]
         proj = "all"
-    tl = ", ".join(f'"{t}"' for t in ITER_TOOLS + ["all", "any"])
+    tl = ", ".join(f'"{t}"' for t in (RANDOM_AGG if agg else ITER_TOOLS + ["all", "any"]))
     const = f'CONSTANTS\n  MaxLen = 12\n  MaxSrc = 4\n  Tools = {{{tl}}}\n  Faults = {"TRUE" if faults else "FALSE"}\n  Prefixes = TRUE\n  OutFile = ""\n  Proj = "{proj}"\n'
     # validate() writes {"cfg","ev"}: the ToolMachine trace spec reads .log
     rejected, st = validate("ToolMachineTrace", traces, spec="Spec2", extra_cfg=const)
@@ -588,7 +619,7 @@ def check(prop, tier, seed):
                 ok, obs = False, repr(ex)
             if not ok:
                 v.violation("C01/tee/number-of-children-differs-from-itertools", {"engine": "scenario", "cfg": {"n": n_}, "expected": {"children": want}, "observed": obs})
-    if prop in ("C01", "C04", "C05", "C06"):
+    if prop in ("C01", "C02", "C04", "C05", "C06"):
         sub["beyond_bounds"] = beyond_bounds(prop, tier, seed, v)
     if prop == "C19":
         L = tm.load_lib()
